@@ -6,17 +6,21 @@ import RawPanelVerif.Driver.Lifecycle
 Driver glue for `gorwp.run` records (C19).
 
 * `H1/H0:<clause>`: `Spec.Gorwp.check` on the observation.
-* `EQ/NE`: the observation equals what the model computes: `Connect`'s result = `Gorwp.connect` on the course of the
-  initialisation window, invocation log = `Gorwp.dispatchDyn` (exact order) over what the reader forwards
-  (`Gorwp.readerKeeps`), ack count, final state.  The model has Boolean variants — `strict` (over-limit branch
-  returns), `dropAck` (the binary reader drops a message whose flow field is ACK), `strictInit` (a cancelled context
-  during initialisation is an error) — and the loop model admits a stall when handlers feed more than `cap` sends back
-  (pinned); the driver accepts either variant and reports which one it saw as a branch tag (`B:reader=…`,
-  `B:connect=…`, `B:stalled`).
+* `EQ/NE`: the observation equals what the model of the CODE AS IT IS computes: `Connect`'s result = `Gorwp.connect true`
+  on a possible course of the initialisation window, invocation log = `Gorwp.dispatchDyn` (exact order) over what the
+  reader forwards (`Gorwp.readerKeeps`: binary `.bare`, ASCII `.none`; an over-limit header ends the connection), ack
+  count, final state.  With the environment variable `VERIF_C19_MODEL=pinned` the driver runs the model of the PINNED
+  code instead (`connect false`, reader `.whole`, over-limit header only logged, a permanent stall of the single loop
+  under feedback accepted; tag `B:model=pinned`) — for replays of the old findings.  A regression of the library to a
+  pinned behaviour is therefore NE (model ≠ implementation) as well as H0.
 -/
 namespace RawPanelVerif.Driver.Gorwp
 open RawPanelVerif RawPanelVerif.Wire RawPanelVerif.Gorwp RawPanelVerif.GorwpBridge
 open RawPanelVerif.Driver.Lifecycle (kvOf kvGet kvNat)
+
+/-- `VERIF_C19_MODEL=pinned`, read once at start-up -/
+initialize pinnedModel : Bool ← do
+  return (← IO.getEnv "VERIF_C19_MODEL") == some "pinned"
 
 def hexBytes (s : String) : List Nat := match unhex s with | some b => b.toList.map (·.toNat) | none => []
 
@@ -118,7 +122,8 @@ def svg0 : List Nat := "<svg xmlns=\"http://www.w3.org/2000/svg\" width=\"10\" h
 def asciiBytes (s : String) : List Nat := s.toUTF8.toList.map (·.toNat)
 
 /-- the connection ends (or a frame stalls) during initialisation instead of the panel completing its answer -/
-def initEnds (variant : String) : Bool := variant = "close0" ∨ variant = "close2" ∨ variant = "overlimit" ∨ variant = "stall"
+def initEnds (variant : String) : Bool :=
+  variant = "close0" ∨ variant = "close2" ∨ variant = "overlimit" ∨ variant = "stall" ∨ variant = "fullclose"
 
 def initMsgs (variant : String) : List (OutMsg × Nat) :=
   let info : PanelInfo := { model := if variant = "nomodel" then [] else asciiBytes "M1",
@@ -126,17 +131,20 @@ def initMsgs (variant : String) : List (OutMsg × Nat) :=
                             name := if variant = "noname" then [] else asciiBytes "N1" }
   let topo : Topo := { json := if variant = "nojson" then [] else json0,
                        svg := if variant = "nosvg" ∨ variant = "late" then [] else svg0 }
-  if initEnds variant then (if variant = "close0" then [] else [({ info := some info }, 0)]) else
+  if initEnds variant ∧ variant ≠ "fullclose" then (if variant = "close0" then [] else [({ info := some info }, 0)]) else
   [({ info := some info }, 0), ({ avail := some [(1, 1)] }, 0)]
   ++ (if topo.json = [] ∧ topo.svg = [] then [] else [({ topo := some topo }, 2)])
 
 /-- the possible courses of the initialisation window as `init`'s select can see them.  close0 / close2 / overlimit:
 the reader fails (EOF / over-limit header) and `listen` cancels the context — before or after the dispatcher got to the
-identity message; stall (binary): the reader's 2 s payload deadline and the 2 s window race; otherwise the timer ends
+identity message; fullclose: likewise after any number of the messages of the complete answer; stall (binary): the reader's 2 s payload deadline and the 2 s window race; otherwise the timer ends
 the window (if the fourth item has not arrived before). -/
 def initLins (ascii : Bool) (variant : String) : List (List InitEv) :=
   let ms := (initMsgs variant).map (fun p => InitEv.dispatched p.1)
   if variant = "close0" ∨ variant = "close2" ∨ variant = "overlimit" then [ms ++ [.ctxDone], [.ctxDone]]
+  -- fullclose: the complete answer in one write, then the panel closes at once: the reader's cancel may overtake the
+  -- dispatcher (which stops at `ctx.Done()` with messages still queued) at any point
+  else if variant = "fullclose" then (List.range (ms.length + 1)).map (fun k => ms.take k ++ [.ctxDone])
   else if variant = "stall" then (if ascii then [ms ++ [.windowClosed]] else [ms ++ [.windowClosed], ms ++ [.ctxDone]])
   else [ms ++ [.windowClosed]]
 
@@ -150,16 +158,16 @@ def modelHistory (strict : Bool) : List RItem → List OutMsg
   | .wait :: r => modelHistory strict r
   | .bind .. :: r => modelHistory strict r
 
-/-- the run of registrations and events: what the reader forwards (`dropAck`) in wire order, the harness's `Bind*`
+/-- the run of registrations and events: what the reader forwards (filter `f`) in wire order, the harness's `Bind*`
 calls where the script has them -/
-def dynHistory (strict dropAck : Bool) : List RItem → List DynItem
+def dynHistory (strict : Bool) (f : AckFilter) : List RItem → List DynItem
   | [] => []
-  | .msg m _ :: r => (if readerKeeps dropAck m then m.events.map DynItem.event else []) ++ dynHistory strict dropAck r
-  | .burst n id :: r => List.replicate n (DynItem.event { id, binary := some { pressed := true, edge := 0 } }) ++ dynHistory strict dropAck r
-  | .over len :: r => if len ≥ Gen.gorwpFrameLimit ∧ !strict then dynHistory strict dropAck r else []
+  | .msg m _ :: r => (if readerKeeps f m then m.events.map DynItem.event else []) ++ dynHistory strict f r
+  | .burst n id :: r => List.replicate n (DynItem.event { id, binary := some { pressed := true, edge := 0 } }) ++ dynHistory strict f r
+  | .over len :: r => if len ≥ Gen.gorwpFrameLimit ∧ !strict then dynHistory strict f r else []
   | .trunc _ :: _ => []
-  | .wait :: r => dynHistory strict dropAck r
-  | .bind k id :: r => DynItem.bind k id :: dynHistory strict dropAck r
+  | .wait :: r => dynHistory strict f r
+  | .bind k id :: r => DynItem.bind k id :: dynHistory strict f r
 
 open Spec.Gorwp in
 def specItems : List RItem → List Item
@@ -251,12 +259,12 @@ def isPrefixOf {α} [BEq α] : List α → List α → Bool
   | _, [] => false
   | a :: as, b :: bs => a == b && isPrefixOf as bs
 
-/-- does the observation equal the model's outputs for the reader variants `strict` / `dropAck`? -/
-def agrees (b : Bindings) (initv : String) (items : List RItem) (fb : Bool) (o : RObs) (strict dropAck : Bool) : Bool × Bool :=
-  let h := readerView dropAck (modelHistory strict items)
+/-- does the observation equal the model's outputs for the reader variant `strict` / `f`? -/
+def agrees (b : Bindings) (initv : String) (items : List RItem) (fb : Bool) (o : RObs) (strict : Bool) (f : AckFilter) : Bool × Bool :=
+  let h := readerView f (modelHistory strict items)
   let all := (initMsgs initv).map (·.1) ++ h
   let st := finalState {} all
-  let inv := dispatchDyn b (dynHistory strict dropAck items)
+  let inv := dispatchDyn b (dynHistory strict f items)
   -- model: the topology object is a fresh parse of `topoSrc` (= the stored JSON)
   let stateOk := o.tg = o.tf ∧ o.tj = st.topoSrc ∧ o.model = st.model ∧ o.serial = st.serial ∧ o.name = st.name ∧ o.tj = st.topoJSON ∧ o.sv = st.topoSVG
     ∧ (o.av.all (fun (k, v) => lookupAvail st k = some v)) ∧ (st.avail.all (fun (k, _) => (o.av.find? (·.1 = k)).isSome))
@@ -298,36 +306,32 @@ def step (cmd : String) (args : List String) (impl : String) : String :=
         { initOk := o.initOk, tconn := o.tconn, inv := o.inv.map toSInv, acks := o.acks, model := o.model, serial := o.serial,
           name := o.name, tj := o.tj, sv := o.sv, tn := o.tn, tg := o.tg, tf := o.tf, av := o.av, tlast := o.tlast, dataRaces := o.dataRaces, bindRace := o.bindRace }
       let hs := match Spec.Gorwp.check sc so with | none => "H1" | some c => s!"H0:{c}"
-      -- model: Connect's result = `connect` on one of the possible courses of the initialisation window, for the pinned
-      -- `init` (a cancelled context is success) or the repaired one
+      -- model: Connect's result = `connect` on one of the possible courses of the initialisation window; the code as it is
+      -- (a cancelled context is an error unless initialised) unless the pinned model was asked for
+      let pinned := pinnedModel
+      let ptag := if pinned then " B:model=pinned" else ""
       let lins := initLins (mode = "asc") initv
-      let pinnedOk := lins.any (fun l => connect false l = o.initOk)
-      let strictOk := lins.any (fun l => connect true l = o.initOk)
-      let ctag := if pinnedOk ∧ strictOk then "" else if pinnedOk then " B:connect=ok-on-cancelled-context" else " B:connect=strict"
-      if !pinnedOk ∧ !strictOk then s!"NE {hs} model:init={if o.initOk then "err" else "ok"} {tags}"
-      else if !o.initOk then s!"EQ {hs} {tags}{ctag}"
+      if !lins.any (fun l => connect (!pinned) l = o.initOk) then
+        s!"NE {hs} model:init={if o.initOk then "err" else "ok"} {tags}{ptag}"
+      else if !o.initOk then s!"EQ {hs} {tags}{ptag}"
       else if initEnds initv then
-        -- `Connect` returned success on a lost connection: the state is that of a prefix of what arrived; nothing follows
+        -- `Connect` returned success although the connection ended inside the window: the state is that of a prefix of what
+        -- arrived (all of it in the code as it is, where success means initialised); nothing follows
         let ms := (initMsgs initv).map (·.1)
         let sts := (List.range (ms.length + 1)).map (fun k => finalState {} (ms.take k))
         if o.inv.isEmpty ∧ sts.any (fun st => o.model = st.model ∧ o.serial = st.serial ∧ o.name = st.name ∧ o.tj = st.topoJSON
-            ∧ o.sv = st.topoSVG ∧ o.isInit = isInitialized st) then s!"EQ {hs} {tags}{ctag}"
-        else s!"NE {hs} model:state-of-a-prefix-of-the-initial-answer {tags}{ctag}"
+            ∧ o.sv = st.topoSVG ∧ o.isInit = isInitialized st ∧ (pinned ∨ isInitialized st)) then s!"EQ {hs} {tags}{ptag}"
+        else s!"NE {hs} model:state-of-a-prefix-of-the-initial-answer {tags}{ptag}"
       else
-        let hasOver := items.any (fun i => match i with | .over len => len ≥ Gen.gorwpFrameLimit | _ => false)
-        -- the binary reader of the code as it is drops a message whose flow field is ACK with all it carries
-        let ackLoad := items.any (fun i => match i with | .msg m _ => m.flow = .ack ∧ !pureAck m | _ => false)
-        let dropPinned := mode ≠ "asc"
-        let atag := if ackLoad ∧ dropPinned then " B:reader=drops-ack-message" else ""
-        let (fullP, stallP) := agrees b initv items fb o false dropPinned
-        let (fullS, stallS) := agrees b initv items fb o true dropPinned
-        if fullP ∧ (!hasOver ∨ !fullS) then s!"EQ {hs} {tags}{ctag}{atag}" ++ (if hasOver then " B:reader=keeps-parsing" else "")
-        else if fullS then s!"EQ {hs} {tags}{ctag}{atag} B:reader=strict"
-        else if stallP ∨ stallS then s!"EQ {hs} {tags}{ctag}{atag} B:stalled@{o.inv.length}"
-        else if ackLoad ∧ dropPinned ∧ ((agrees b initv items fb o false false).1 ∨ (agrees b initv items fb o true false).1) then
-          s!"EQ {hs} {tags}{ctag} B:reader=keeps-ack-message"
+        -- code as it is: an over-limit header ends the connection; the binary reader drops a bare acknowledge only (ASCII: the
+        -- line `ack`).  Pinned: the header is only logged; the binary reader drops every message with flow field ACK.
+        let strict := !pinned
+        let f : AckFilter := if mode = "asc" then .none else if pinned then .whole else .bare
+        let (full, stall) := agrees b initv items fb o strict f
+        if full then s!"EQ {hs} {tags}{ptag}"
+        else if pinned ∧ stall then s!"EQ {hs} {tags}{ptag} B:stalled@{o.inv.length}"
         else
-          let inv := dispatchDyn b (dynHistory false dropPinned items)
-          s!"NE {hs} model:ninv={inv.length},acks={acks (readerView dropPinned (modelHistory false items))} {tags}"
+          let inv := dispatchDyn b (dynHistory strict f items)
+          s!"NE {hs} model:ninv={inv.length},acks={acks (readerView f (modelHistory strict items))} {tags}{ptag}"
 
 end RawPanelVerif.Driver.Gorwp
